@@ -129,17 +129,31 @@ func OpDiv(x Value, y Value) Value {
 }
 
 func OpMod(x Value, y Value) Value {
-	return IntVal(ToInt(x) % ToInt(y))
+	yi := ToInt(y)
+	if yi == 0 {
+		panic("modulo by zero")
+	}
+	return IntVal(ToInt(x) % yi)
 }
 
 func OpLeftShift(x Value, y Value) Value {
-	result := ToInt(x) << ToInt(y)
+	result := ToInt(x) << shiftCount(y)
 	return IntVal(result)
 }
 
 func OpRightShift(x Value, y Value) Value {
-	result := uint(ToInt(x)) >> ToInt(y)
+	result := uint(ToInt(x)) >> shiftCount(y)
 	return IntVal(int(result))
+}
+
+// shiftCount is used by OpLeftShift and OpRightShift
+// so a negative count is a normal exception and not a Go runtime error
+func shiftCount(y Value) int {
+	n := ToInt(y)
+	if n < 0 {
+		panic("shift count must not be negative")
+	}
+	return n
 }
 
 func OpBitOr(x Value, y Value) Value {
